@@ -1,6 +1,5 @@
 import Ntrip.Proofs.SegmentRefine
 import Ntrip.Proofs.Normalise
-import Ntrip.Guards.Framing
 /-!
 # C03 — every valid frame not preceded by a stray 0xD3 is recognised, once, in order
 
@@ -50,8 +49,5 @@ example : (∀ s ∈ [Seg.junk [0x24, 0x47], .frame F1, .junk [0x0d], .junk [0x0
   · exact ⟨by decide, by decide⟩
   · exact ⟨by decide, by decide⟩
   · exact F1_valid
-
-/-- Tie T1: guards and loop headers of the modelled code, regenerated from the source. -/
-theorem tie_guards_framing : type_of% Ntrip.Guards.framing := Ntrip.Guards.framing
 
 end Ntrip.C03
